@@ -260,6 +260,19 @@ def gpLazyLimb (p mrc : Nat) (fam : List Nat) (R C : List (List Nat)) : List Nat
   (List.zip (RPoly.transpose R) (RPoly.transpose C)).map fun (rs, cs) =>
     RGSW.lazySlot p mrc (RGSW.lazyMargin fam) rs cs
 
+/-! ## `RingPackingEvaluator.Expand`: the index arithmetic of the loop -/
+
+/-- the keys of the map `Expand(ct, logGap)` returns, following the loop: `cts = {0}`; for `i < logN`, `n = 2^i`, for
+    `j = 0, gap, 2·gap, … < n`: a child `cts[j+n]` is created iff `j + n/gap > 0` (for `n < gap` only the trace step is
+    applied to `cts[0]`).  Sorted. -/
+def expandKeys (logN logGap : Nat) : List Nat :=
+  let gap := 2 ^ logGap
+  let ks := (List.range logN).foldl (fun (acc : List Nat) i =>
+    let n := 2 ^ i
+    let js := (List.range ((n + gap - 1) / gap)).map (· * gap)
+    js.foldl (fun (a : List Nat) j => if j + n / gap > 0 then (j + n) :: a else a) acc) [0]
+  (List.range (2 ^ logN + 1)).filter fun k => ks.contains k
+
 /-- `Y ↦ X^{gap}` on one row: coefficient `k` goes to position `k·gap`, zeros elsewhere -/
 def rowEmbed (gap : Nat) (x : List Nat) : List Nat :=
   x.flatMap fun v => v :: List.replicate (gap - 1) 0
